@@ -14,7 +14,7 @@ from fractions import Fraction
 import numpy as np
 
 from . import core
-from .core import (Explorer, Ctx, ConcreteCtx, PathAbort, NonFinite, HarnessError, Sym, SymBool, Not, And, Or,
+from .core import (Explorer, Ctx, ConcreteCtx, PathAbort, NonFinite, HarnessError, SubtreeCut, Sym, SymBool, Not, And, Or,
                    mk_atom, p_scale, p_add, p_const)
 from .npx import interposed, symarray, load_tw
 
@@ -29,6 +29,7 @@ class Family:
     nonfinite_is_violation = True
     query_timeout_ms = 20000
     max_paths = None
+    split_depth = None   # if set: paths are cut after this many decisions and the subtrees become separate tasks
 
     def configs(self, tier):
         return [{}]
@@ -70,7 +71,7 @@ def _run_wrapped(fam, ctx, cfg):
                 fam.run(ctx, inst, **cfg)
         else:
             fam.run(ctx, None, **cfg)
-    except (PathAbort, NonFinite, HarnessError):
+    except (PathAbort, NonFinite, HarnessError, SubtreeCut):
         raise
     except ZeroDivisionError as e:
         if ctx.symbolic:
@@ -123,16 +124,19 @@ def _margin_neg(cond, m=Fraction(1, 64)):
 
 
 def _task(args):
-    fam, cfg, tier, deadline, idx = args
+    fam, cfg, tier, deadline, idx = args[:5]
+    root = args[5] if len(args) > 5 else None
     load_tw()
     _trace_on()
     t0 = time.time()
     ex = Explorer(query_timeout_ms=fam.query_timeout_ms, max_paths=fam.max_paths, deadline=deadline)
     ex.nonfinite_is_violation = fam.nonfinite_is_violation
     ex.margin_fn = _margin_neg
+    if root is None and fam.split_depth:
+        ex.collect_depth = fam.split_depth
     err = None
     try:
-        ex.run(lambda ctx: _run_wrapped(fam, ctx, cfg))
+        ex.run(lambda ctx: _run_wrapped(fam, ctx, cfg), root=root)
     except HarnessError as e:
         err = "HarnessError: %s" % e
     except Exception as e:  # noqa: BLE001
@@ -143,7 +147,7 @@ def _task(args):
         "n_candidates": len(ex.candidates), "inconclusive": [(n, len(d)) for n, d in ex.inconclusive[:10]],
         "n_inconclusive": len(ex.inconclusive),
         "samples": ex.samples[:2], "truncated": ex.truncated, "error": err, "entered": sorted(_ENTERED),
-        "reached": sorted(ex.reached), "wall": time.time() - t0,
+        "reached": sorted(ex.reached), "wall": time.time() - t0, "roots": ex.roots, "is_subtree": root is not None,
     }
 
 
@@ -329,13 +333,35 @@ def run_check(prop, title, families, tier, meta):
             tasks.append((fam, cfg, tier, deadline, len(tasks)))
     nproc = min(int(os.environ.get("VERIF_JOBS", "16")), max(1, len(tasks)))
     results = []
+    nproc = int(os.environ.get("VERIF_JOBS", "16"))
     if nproc > 1:
         ctxm = mp.get_context("fork")
         with ctxm.Pool(nproc, maxtasksperchild=8) as pool:
-            for r in pool.imap_unordered(_task, tasks, chunksize=1):
-                results.append(r)
+            # heavy (split) families first so that their subtrees can be queued early
+            order = sorted(tasks, key=lambda t: 0 if t[0].split_depth else 1)
+            pending = [pool.apply_async(_task, (t,)) for t in order]
+            while pending:
+                nxt = []
+                for p in pending:
+                    if p.ready():
+                        r = p.get()
+                        results.append(r)
+                        for root in r["roots"]:
+                            fam_, cfg_ = tasks[r["idx"]][0], tasks[r["idx"]][1]
+                            nxt.append(pool.apply_async(_task, ((fam_, cfg_, tier, deadline, r["idx"], root),)))
+                    else:
+                        nxt.append(p)
+                pending = nxt
+                if pending:
+                    time.sleep(0.05)
     else:
-        results = [_task(t) for t in tasks]
+        queue = list(tasks)
+        while queue:
+            t = queue.pop()
+            r = _task(t)
+            results.append(r)
+            for root in r["roots"]:
+                queue.append((t[0], t[1], tier, deadline, r["idx"], root))
     results.sort(key=lambda r: r["idx"])
     fam_by_name = {f.name: f for f in families}
 
@@ -368,7 +394,7 @@ def run_check(prop, title, families, tier, meta):
         entered.update(r["entered"])
         fs = fam_summary.setdefault(r["family"], {"configs": 0, "paths": 0, "obligations": 0, "discharged": 0,
                                                    "sat": 0, "inconclusive": 0, "wall_s": 0.0, "claims": set()})
-        fs["configs"] += 1
+        fs["configs"] += 0 if r["is_subtree"] else 1
         fs["paths"] += r["stats"]["paths"]
         fs["obligations"] += r["stats"]["obligations"]
         fs["discharged"] += r["stats"]["discharged"]
@@ -431,7 +457,7 @@ def run_check(prop, title, families, tier, meta):
         print("TRUNCATED property=%s family=%s config=%s (budget exhausted; the rest is NOT covered)" % (prop, t[0], t[1]))
 
     wall = time.time() - t0
-    n_distinct = sum(1 for r in results if r["stats"]["paths"] - r["stats"]["paths_aborted"] > 0)
+    n_distinct = len({r["idx"] for r in results if r["stats"]["paths"] - r["stats"]["paths_aborted"] > 0})
     for fs in fam_summary.values():
         fs["claims"] = sorted(fs["claims"])
         fs["wall_s"] = round(fs["wall_s"], 2)
